@@ -32,7 +32,9 @@ by what the test establishes, through helpers and compound locals); C03.2 the
 lease is re-instated on every exit of restore (shared with C01.6); C03.5 a
 renewal is refused only for an instance that has a lease and the fallback
 restores exactly the recorded server and expiry; C03.6 every new trait gets a
-fresh code bit and unknown traits are unsatisfiable.
+fresh code bit and unknown traits are unsatisfiable. Fourth round: C03.4 every
+call of Cell.add_app queues the instance with the allocation given (shared
+with C06.5).
 Does NOT decide that a granted expiry never exceeds the reboot time over
 clock advances.
 """
